@@ -322,7 +322,11 @@ def check_b(ck, repo):
                 continue
             w1 = cond_want(repo, f"{C}[{c}] < {LIM} + {LC}[{c}]", g, s)
             w2 = cond_want(repo, f"{C}[{L}[{p}]] > {LIM} + {LC}[{L}[{p}]]", g, s)
-            if w1 in conds and w2 in conds:
+            # the same guard with the capacities as one vector, (limit + leftclose)[cluster]
+            # (limit is a scalar, so the subscript distributes over the sum)
+            w1v = cond_want(repo, f"{C}[{c}] < ({LIM} + {LC})[{c}]", g, s)
+            w2v = cond_want(repo, f"{C}[{L}[{p}]] > ({LIM} + {LC})[{L}[{p}]]", g, s)
+            if (w1 in conds or w1v in conds) and (w2 in conds or w2v in conds):
                 ck.holds("C07.b", g, s, "move paired with counters[cur] -= 1, counters[dest] += 1 under the two-sided capacity guard")
             else:
                 ck.violated("C07.b", g, s, f"move is executed where {sorted(x for x in conds if C in x[0])}; the two-sided capacity guard `{C}[dest] < {LIM} + {LC}[dest]` and `{C}[cur] > {LIM} + {LC}[cur]` is required, otherwise a cluster can exceed or fall below its allowed size")
